@@ -150,21 +150,12 @@ async fn source(s: usize, vals: Vec<(u8, bool)>, log: Log) {
 /// `part` 0: small programs, every interleaving. `part` 1: registry-heavy programs (2-3
 /// barriers up front, longer scripts), schedules within a preemption (deviation) bound.
 pub fn scenario(ch: &mut Chooser, thorough: bool, part: u8) -> Exec {
-    // a test task that ends by panicking drops its barriers during unwinding; the registry is
-    // a thread-local, so such an execution gets a thread of its own (nothing it might leave
-    // behind can reach another execution)
+    // a test task that ends by panicking drops its barriers during unwinding (the harness
+    // catches the panic, the thread lives on). The registry is a thread-local: should such a
+    // barrier stay registered, it would also disturb later executions on this worker thread,
+    // which is why the identical-verdict re-execution is switched off for this part.
     let panic_at_end = part == 1 && ch.dev_flag("test_task_panics_at_the_end_of_its_script");
-    if panic_at_end {
-        return std::thread::scope(|sc| {
-            std::thread::Builder::new()
-                .stack_size(8 << 20)
-                .spawn_scoped(sc, || scenario_on_this_thread(ch, thorough, part, true))
-                .expect("spawn")
-                .join()
-                .unwrap_or_else(|_| Exec { outcome: 0, violation: Some(Violation::new("harness-panic", "the scenario thread panicked".into())), features: vec![] })
-        });
-    }
-    scenario_on_this_thread(ch, thorough, part, false)
+    scenario_on_this_thread(ch, thorough, part, panic_at_end)
 }
 
 fn scenario_on_this_thread(ch: &mut Chooser, thorough: bool, part: u8, panic_at_end: bool) -> Exec {
